@@ -511,3 +511,17 @@ func (c *Conn) Announce(timeout time.Duration) int {
 	}
 	return refused
 }
+
+// MessageIDsIn returns the ids of the remote messages that are in the given mailbox, sorted (added for C19).
+func (c *Conn) MessageIDsIn(mbox imap.MailboxID) []imap.MessageID {
+	c.mu.Lock()
+	defer c.mu.Unlock()
+	var out []imap.MessageID
+	for id, m := range c.Messages {
+		if m.Mboxes[mbox] {
+			out = append(out, id)
+		}
+	}
+	sort.Slice(out, func(i, j int) bool { return out[i] < out[j] })
+	return out
+}
